@@ -104,7 +104,10 @@ P = {
          "the copy parked on a FIFO while a writer tries to commit (must block), then the copy is opened and fully observed, every index "
          "mode x RWMode.", "PARTIAL as C14 for the runtime part; filesystem.CopyDir is trusted."),
  "C15": ("Rocq theorems on the Merge model (Merge.v): dead and uncommitted records are never rewritten; refused Merge is a no-op; key/value "
-         "contents preserved by Merge (MergeFacts, see evidence for the exact statements). Tie: histories with Merge at arbitrary points, "
+         "contents preserved by Merge in every reachable world (MergeFacts); sets and sorted sets (MergeDS): in the running process Merge leaves "
+         "their indexes untouched, and after a successful Merge and a reopen every set key with a member keeps exactly its members and every "
+         "sorted-set bucket with a node exactly its nodes in order (the last theorem could only be closed after fix 71d5512, which its "
+         "counterexample motivated). Tie: histories with Merge at arbitrary points, "
          "repeatedly, more writes, reopens, both RAM modes: impl = Merge model = L0 spec (Merge is the identity); I/O errors injected at every "
          "mutation point of Merge. Translation tie (C15_code.v): isFilterEntry and IsExpired as translated from /repo equal the model's filter.",
          "KNOWN FINDINGS F14 (lists) and F30 (existence of empty structures) are reported as KNOWN-FINDING and attributed narrowly."),
